@@ -98,12 +98,25 @@ BUILTIN_CLASSES = {
 }
 
 
+_STDLIB_BASE = []
+
+
+def stdlib_base_path():
+    if not _STDLIB_BASE:
+        import glob
+        exe = os.path.realpath("/venv/bin/python")
+        c = glob.glob(os.path.join(os.path.dirname(os.path.dirname(exe)), "lib", "python3*", "concurrent", "futures", "_base.py"))
+        _STDLIB_BASE.append(c[0] if c else None)
+    return _STDLIB_BASE[0]
+
+
 class Repo(object):
     def __init__(self, root=None):
         self.root = root or REPO
         self.modules = {}
         self.classes = {}      # class name -> ClassInfo   (class names are unique in this package)
-        self.funcs = {}        # qualname -> Func
+        self.funcs = {}        # qualname -> Func   (repository code only: what static obligations iterate over)
+        self.ext_funcs = {}    # qualname -> Func of the external (stdlib) module loaded for contracts/c_stdlib.py
         self.func_by_id = {}
         self._next_tag = 10
         self._next_fid = 1000
@@ -139,6 +152,17 @@ class Repo(object):
             mi = ModuleInfo(rel, path, tree, src)
             mi.is_pkg = is_pkg
             self.modules[rel] = mi
+        # the dependency whose contract everything else assumes: concurrent/futures/_base.py of the interpreter that runs the
+        # repository's suite.  Loaded as one more module (class key `_base.Future`: the plain name `Future` stays the modelled
+        # builtin); only the units of contracts/c_stdlib.py execute it - they check the model against this source.
+        sp = stdlib_base_path()
+        if sp is not None:
+            with open(sp) as fh:
+                src = fh.read()
+            mi = ModuleInfo("concurrent.futures._base", sp, ast.parse(src, filename=sp), src)
+            mi.is_pkg = False
+            mi.external = True
+            self.modules[mi.name] = mi
         for mi in self.modules.values():
             self._scan_module(mi)
 
@@ -228,7 +252,7 @@ class Repo(object):
     def _add_func(self, mi, node, qualname, owner, kind="function"):
         f = Func(qualname, node, mi, owner, self._next_fid, kind)
         self._next_fid += 1
-        self.funcs[qualname] = f
+        (self.ext_funcs if getattr(mi, "external", False) else self.funcs)[qualname] = f
         self.func_by_id[f.fid] = f
         # nested defs and lambdas
         counter = {"lambda": 0}
@@ -242,7 +266,7 @@ class Repo(object):
                     qn = "%s.<lambda#%d>" % (prefix, counter["lambda"])
                     lf = Func(qn, ch, mi, owner, self._next_fid, "lambda")
                     self._next_fid += 1
-                    self.funcs[qn] = lf
+                    (self.ext_funcs if getattr(mi, "external", False) else self.funcs)[qn] = lf
                     self.func_by_id[lf.fid] = lf
                     ch._pyvc_func = lf
                     walk(ch, prefix)
@@ -315,6 +339,8 @@ class Repo(object):
         cands = [q for q in self.funcs if q.endswith("." + qualname)]
         if len(cands) == 1:
             return self.funcs[cands[0]]
+        if qualname in self.ext_funcs:
+            return self.ext_funcs[qualname]
         raise KeyError("function %r: %d candidates %r" % (qualname, len(cands), cands[:5]))
 
     def span(self, f):
